@@ -1,2 +1,127 @@
+//! C16: generated parameter names, exhaustive to the property's own small-scope bound.
 use super::*;
-pub fn contracts() -> Vec<Contract> { vec![] }
+
+pub fn contracts() -> Vec<Contract> {
+    vec![Contract { name: "c16_param_names", function: "signature/fn_params.rs::fix_fn_param_idents (+ fix_ident_conflicts, lift_inner_pat_idents, autogenerate_for_non_idents)", props: &["C16", "C01", "C15"], run: c16 }]
+}
+
+struct Sym {
+    pat: &'static str,
+    /// plain binding: keeps this name (None for non-plain patterns)
+    plain: Option<&'static str>,
+    /// destructuring pattern with exactly one binding: takes this name
+    single: Option<&'static str>,
+}
+
+const ALPHABET: [Sym; 15] = [
+    Sym { pat: "a", plain: Some("a"), single: None },
+    Sym { pat: "mut m", plain: Some("m"), single: None },
+    Sym { pat: "ref r", plain: Some("r"), single: None },
+    Sym { pat: "r#type", plain: Some("r#type"), single: None },
+    Sym { pat: "_", plain: None, single: None },
+    Sym { pat: "(p, q)", plain: None, single: None },
+    Sym { pat: "N(n)", plain: None, single: Some("n") },
+    Sym { pat: "N(k, _)", plain: None, single: Some("k") },
+    Sym { pat: "S { s }", plain: None, single: Some("s") },
+    Sym { pat: "&amp", plain: None, single: Some("amp") },
+    Sym { pat: "foo", plain: Some("foo"), single: None },  // the function's own name
+    Sym { pat: "foo_", plain: Some("foo_"), single: None }, // what `foo` would be renamed to
+    Sym { pat: "arg1", plain: Some("arg1"), single: None }, // a would-be generated name
+    Sym { pat: "_arg0", plain: Some("_arg0"), single: None },
+    Sym { pat: "W(foo)", plain: None, single: Some("foo") }, // single binding equal to the fn name
+];
+
+fn c16(ctx: &Ctx, r: &mut Report) {
+    let max = if ctx.tier == Tier::Thorough { 5 } else { 4 };
+    r.domain = "all lists of irrefutable parameter patterns over {a, mut m, ref r, r#type, _, (p,q), N(n), N(k,_), S{s}, &amp, foo (= fn name), foo_, arg1, _arg0, W(foo)} for `fn foo`, with and without a leading receiver; a symbol is not repeated (bindings must be distinct in valid Rust) except `_`".into();
+    r.bound = format!("list length 0..{}", max);
+    for n in 0..=max {
+        for seq in sequences(ALPHABET.len(), n) {
+            // valid Rust: no binding name twice
+            let mut names: Vec<&str> = vec![];
+            let mut dup = false;
+            for s in &seq {
+                let sym = &ALPHABET[*s];
+                for nm in sym.plain.iter().chain(sym.single.iter()) {
+                    if names.contains(nm) {
+                        dup = true;
+                    }
+                    names.push(nm);
+                }
+                if sym.pat == "(p, q)" {
+                    if names.contains(&"p") {
+                        dup = true;
+                    }
+                    names.push("p");
+                    names.push("q");
+                }
+            }
+            if dup {
+                continue;
+            }
+            for recv in [false, true] {
+                if recv && n > 3 {
+                    continue;
+                }
+                let mut params: Vec<String> = vec![];
+                if recv {
+                    params.push("&self".into());
+                }
+                for (i, s) in seq.iter().enumerate() {
+                    params.push(format!("{}: T{}", ALPHABET[*s].pat, i));
+                }
+                let src = format!("fn foo({})", params.join(", "));
+                r.guarded(&src, |r| {
+                    let mut sig: syn::Signature = syn::parse_str(&src).unwrap();
+                    crate::signature::vx_glue::fix_fn_param_idents(&mut sig);
+                    let typed: Vec<&syn::PatType> = sig.inputs.iter().filter_map(|a| if let syn::FnArg::Typed(p) = a { Some(p) } else { None }).collect();
+                    if typed.len() != seq.len() || sig.inputs.len() != params.len() {
+                        r.fail("arity-changed", &src, format!("{} parameters became {}", params.len(), sig.inputs.len()));
+                        return;
+                    }
+                    let mut out_names: Vec<String> = vec![];
+                    for (i, p) in typed.iter().enumerate() {
+                        if tt_string(&p.ty) != format!("T{}", i) {
+                            r.fail("type-changed", &src, format!("parameter {} has type {}", i, tt_string(&p.ty)));
+                        }
+                        match p.pat.as_ref() {
+                            syn::Pat::Ident(pi) => {
+                                if pi.by_ref.is_some() || pi.mutability.is_some() || pi.subpat.is_some() {
+                                    r.fail("not-plain-identifier", &src, format!("parameter {} is `{}`, not a plain identifier", i, tt_string(pi)));
+                                }
+                                out_names.push(pi.ident.to_string());
+                            }
+                            other => {
+                                r.fail("not-an-identifier", &src, format!("parameter {} is still the pattern `{}`", i, tt_string(other)));
+                                out_names.push(format!("<pattern {}>", i));
+                            }
+                        }
+                    }
+                    for i in 0..out_names.len() {
+                        for j in 0..i {
+                            if out_names[i] == out_names[j] {
+                                r.fail("duplicate-name", &src, format!("parameters {} and {} are both named `{}`", j, i, out_names[i]));
+                            }
+                        }
+                        if out_names[i] == "foo" {
+                            r.fail("shadows-function", &src, format!("parameter {} is named `foo` and shadows the function the method must call", i));
+                        }
+                    }
+                    for (i, s) in seq.iter().enumerate() {
+                        let sym = &ALPHABET[*s];
+                        if let Some(nm) = sym.plain {
+                            if nm != "foo" && out_names[i] != nm {
+                                r.fail("plain-binding-renamed", &src, format!("plain binding `{}` became `{}`", nm, out_names[i]));
+                            }
+                        }
+                        if let Some(nm) = sym.single {
+                            if nm != "foo" && out_names[i] != nm {
+                                r.fail("single-binding-not-lifted", &src, format!("pattern `{}` should take the name `{}`, got `{}`", sym.pat, nm, out_names[i]));
+                            }
+                        }
+                    }
+                });
+            }
+        }
+    }
+}
